@@ -66,6 +66,11 @@ def scenarios(tier: str) -> list[dict]:
     # the close can only end through cancellation, and a cancelled close must still release the socket (seed C14-7)
     out.append({"path": "srv-client-aclose", "variant": "sender-holds-lock"})
     out.append({"path": "client-connected", "variant": "sender-holds-lock"})
+    # the same for the UDP client (its sender is blocked by EAGAIN answers of the kernel: the socket never becomes writable again)
+    out.append({"path": "udp-client-connected", "variant": "clean"})
+    out.append({"path": "udp-client-connected", "variant": "sender-holds-lock"})
+    # a datagram left in the asyncio transport's buffer (its sender was cancelled) on a socket that never becomes writable again
+    out.append({"path": "udp-client-connected", "variant": "unsent-peer-never-reads"})
     return out
 
 
@@ -82,6 +87,14 @@ def run(ctx: Ctx, cfg: dict) -> dict:
             def drain() -> None:
                 del sock.tx.q[:]
             extra_chains.append(Chain("peer", [(f"r{i}", drain) for i in range(8)]))
+
+    if cfg["path"] == "udp-client-connected":
+        sock = world.dgram_socket()
+        if cfg.get("variant") in ("sender-holds-lock", "unsent-peer-never-reads"):
+            def _never_writable(s: Any, data: bytes) -> BaseException | None:
+                s.tx_blocked = True
+                return BlockingIOError(errno.EAGAIN, "would block")
+            sock.dgram_send_policy = _never_writable
 
     def do_cancel() -> None:
         t = st["closer"]
@@ -141,6 +154,12 @@ def run(ctx: Ctx, cfg: dict) -> dict:
             obj = await backend.wrap_stream_socket(sock)
         elif path == "client-connected":
             obj = AsyncTCPNetworkClient(sock, StreamProtocol(StringLineSerializer()), backend)
+        elif path == "udp-client-connected":
+            from easynetwork.clients.async_udp import AsyncUDPNetworkClient
+            from easynetwork.protocol import DatagramProtocol
+
+            obj = AsyncUDPNetworkClient(sock, DatagramProtocol(StringLineSerializer()), backend)
+            await obj.wait_connected()
             await obj.wait_connected()
         elif path in ("srv-client-aclose", "srv-shutdown"):
             from easynetwork.servers.async_tcp import AsyncTCPNetworkServer
